@@ -52,13 +52,23 @@ def r03_3(facts, res, rule, reach, scc_reasons=None):
     depth / visited value, or be on the reasoned list (recursion bounded by the shape of a finite enum)."""
     scc_reasons = scc_reasons or {}
     st = res.rule(rule, instances=0, guarded=0, reasoned=0)
+    anchors = set(scc_reasons)
+    try:
+        import json, os
+        kf = json.load(open(os.path.join(os.path.dirname(os.path.dirname(os.path.dirname(os.path.dirname(os.path.abspath(__file__))))), "known_findings.json")))
+        anchors |= {x["key"] for x in kf.get("findings", []) if str(x.get("key", "")).startswith("cycle-of:") and x.get("rule") == rule}
+    except (OSError, ValueError):
+        pass
     for comp in e1.recursive_sccs(facts, reach):
         fns = [facts.fns[x] for x in comp]
         if all(f.get("derived") for f in fns):
             continue
         st["instances"] += 1
         members = sorted(f["path"] for f in fns)
-        key = "cycle-of:" + members[0]   # named by its alphabetically first member (stable when members are added)
+        # named by a member: the one an existing verdict (reason or known finding) already names, else the alphabetically first.
+        # A cycle that gains or loses a helper keeps its name as long as the named function is still part of it.
+        named = [m for m in members if "cycle-of:" + m in anchors]
+        key = "cycle-of:" + (named[0] if named else members[0])
         guarded = any(_guarded(facts, f) for f in fns)
         if guarded:
             st["guarded"] += 1
